@@ -9,6 +9,7 @@
 import QV.Model.ZoneFile.Name
 import QV.Model.ZoneFile.Std
 import QV.Model.Wire
+import QV.Model.Rdata
 import QV.Generated.ZoneFileDispatch
 
 namespace QV.ZF
@@ -98,79 +99,9 @@ def mkRdata (l : List UInt8) : P (List UInt8) := fun st =>
 /-- `Name::validate_uncompressed_all(octets).is_ok()` -/
 def vNameAll (rd : List UInt8) : Bool := (Wire.validateUncompressed rd.toArray true).isOk
 
-/-- `Name::validate_uncompressed(octets)`: length of the name at the start of `rd` -/
-def vNameLen (rd : List UInt8) : Option Nat := (Wire.validateUncompressed rd.toArray false).toOption
-
-/-- `validate_character_string` -/
-def vCharStr (rd : List UInt8) : Option Nat :=
-  match rd with
-  | [] => none
-  | len :: _ => if 1 + len.toNat ≤ rd.length then some (1 + len.toNat) else none
-
-/-- the loop of `validate_as_txt` (at least one octet is consumed per round) -/
-def vTxtLoop : Nat → List UInt8 → Bool
-  | _, [] => true
-  | 0, _ => false
-  | fuel+1, len :: rest => if len.toNat ≤ rest.length then vTxtLoop fuel (rest.drop len.toNat) else false
-
-/-- the validators `Rdata::validate_as_*` by the name used in the source.
-    LOCAL MINIMAL VALIDATOR — switch to `QV.Rdata.validate` (lean/QV/Model/Rdata.lean, branch
-    agent/rdata) when that model is merged; only the validators the zone-file parser can reach
-    are modelled here (OPT and TSIG records cannot be produced: `parse_type` refuses them). -/
-def runValidator (name : String) (rd : List UInt8) : Bool :=
-  match name with
-  | "validate_name" => vNameAll rd
-  | "validate_as_in_a" => rd.length == 4
-  | "validate_as_ch_a" =>
-    match vNameLen rd with
-    | some n => rd.length == n + 2
-    | none => false
-  | "validate_as_soa" =>
-    match vNameLen rd with
-    | some m =>
-      match vNameLen (rd.drop m) with
-      | some r => rd.length == 20 + m + r
-      | none => false
-    | none => false
-  | "validate_as_in_wks" => rd.length ≥ 5
-  | "validate_as_hinfo" =>
-    match vCharStr rd with
-    | some c =>
-      match vCharStr (rd.drop c) with
-      | some o => rd.length == c + o
-      | none => false
-    | none => false
-  | "validate_as_minfo" =>
-    match vNameLen rd with
-    | some m => vNameAll (rd.drop m)
-    | none => false
-  | "validate_as_mx" => rd.length ≥ 2 && vNameAll (rd.drop 2)
-  | "validate_as_txt" => !rd.isEmpty && vTxtLoop rd.length rd
-  | "validate_as_in_aaaa" => rd.length == 16
-  | "validate_as_in_srv" => rd.length ≥ 6 && vNameAll (rd.drop 6)
-  | "none" => true
-  | _ => false
-
-/-- which validator `Rdata::validate(class, type)` (src/rr/rdata/mod.rs) dispatches to.
-    Hand-written mirror of that `match` (LOCAL: see `runValidator`). -/
-def validatorOf (cls ty : Nat) : String :=
-  if ty == 2 || ty == 3 || ty == 4 || ty == 5 || ty == 7 || ty == 8 || ty == 9 || ty == 12 then "validate_name"
-  else if ty == 1 && cls == 1 then "validate_as_in_a"
-  else if ty == 1 && cls == 3 then "validate_as_ch_a"
-  else if ty == 6 then "validate_as_soa"
-  else if ty == 11 && cls == 1 then "validate_as_in_wks"
-  else if ty == 13 then "validate_as_hinfo"
-  else if ty == 14 then "validate_as_minfo"
-  else if ty == 15 then "validate_as_mx"
-  else if ty == 16 then "validate_as_txt"
-  else if ty == 28 && cls == 1 then "validate_as_in_aaaa"
-  else if ty == 33 && cls == 1 then "validate_as_in_srv"
-  else if ty == 41 then "validate_as_opt"
-  else if ty == 250 then "validate_as_tsig"
-  else "none"
-
-/-- `Rdata::validate(class, rr_type).is_ok()` -/
-def validate (cls ty : Nat) (rd : List UInt8) : Bool := runValidator (validatorOf cls ty) rd
+/-- `Rdata::validate(class, rr_type)` — the shared RDATA model `QV.Rdata.validate`
+    (lean/QV/Model/Rdata.lean, dispatching through the generated table `Gen.rdataValidateArms`) -/
+def validate (cls ty : Nat) (rd : List UInt8) : Out Rdata.RErr Unit := Rdata.validate cls ty rd.toArray
 
 /-- `serialize_in_wks`: address, protocol, then a bitmap of `max(ports)/8 + 1` octets -/
 def newInWks (addr : List UInt8) (proto : Nat) (ports : List Nat) : List UInt8 :=
@@ -285,10 +216,19 @@ def parseUnknownRdata : P (List UInt8) := do
   let r ← parseUnknownRdataImpl
   pure r.2
 
-/-- `parse_unknown_rdata_with_validation(validator)` -/
+/-- `parse_unknown_rdata_with_validation(validator)`: `validator` is the name of a
+    `Rdata::validate_as_*` / `validate_name` function, resolved in the shared RDATA model
+    (`QV.Rdata.validateHandler`); a validator this model does not know, or one that panics, is
+    `panic` -/
 def parseUnknownRdataWithValidation (validator : String) : P (List UInt8) := do
   let (line, rd) ← parseUnknownRdataImpl
-  if runValidator validator rd then pure rd else P.failAt .InvalidRdataForType line
+  match Rdata.validateHandler validator with
+  | some f =>
+    match f rd.toArray with
+    | .ok _ => pure rd
+    | .err _ => P.failAt .InvalidRdataForType line
+    | .panic => P.panic
+  | none => P.panic
 
 /-- `check_backslash_hash(expected)` -/
 def checkBackslashHash (k : Kind) : P Bool := do
